@@ -78,8 +78,9 @@ def taken_success(body, path, idx, call, kind):
 
 
 class Progress:
-    def __init__(self, F, fns):
+    def __init__(self, F, fns, taint=None):
         self.F = F
+        self.taint = taint
         self.fns = [f for f in fns if f in F.bodies]
         self.must = {f: True for f in self.fns}
         changed = True
@@ -199,7 +200,12 @@ class Progress:
         for b in blk:
             for st in body.blocks[b]["stmts"]:
                 if st["k"] == "assign" and st["rv"]["k"] == "binop" and st["rv"]["op"] in ("SubWithOverflow", "Sub"):
-                    return "decreasing counter", True, "counter -= 1 under a > 0 test (guard rule)"
+                    if self.taint is not None and self.taint.tainted_op(body, st["rv"]["a"]):
+                        return "value-dependent counter", False, \
+                            "the loop counts down a number taken from program values (%s): the iteration count is not bounded " \
+                            "by the length of the line" % body.local_name(st["rv"]["a"]["place"]["local"]) \
+                            if st["rv"]["a"].get("k") in ("copy", "move") else "value-dependent counter"
+                    return "decreasing counter", True, "counter -= 1 under a > 0 test (guard rule); the counter is size-like"
         # increasing index with a bounds exit: `let Some(x) = v.get(i) else return/break; ... i += 1; continue`
         has_get = any(c.bb in blk and c.callee.split("::")[-1] == "get" for c in body.calls())
         has_inc = any(st["k"] == "assign" and st["rv"]["k"] == "binop" and st["rv"]["op"] in ("AddWithOverflow", "Add")
